@@ -37,8 +37,12 @@ PREPROCESSORS = {
 
 
 def split_lines(text):
-    """splitlines(); a single final empty line is not a line."""
-    lines = text.splitlines()
+    """Lines end at newlines (\\n, \\r\\n, \\r) and nowhere else: a form
+    feed, vertical tab, NEL or U+2028 is content, not a line end.  A single
+    final empty line is not a line."""
+    lines = re.split('\r\n|\r|\n', text)
+    if lines[-1] == '':
+        lines.pop()
     return lines
 
 
